@@ -165,6 +165,23 @@ type Emitter struct {
 	pendingPath string
 	pendingFile *os.File
 	pendingLen  int
+	retained    []retainedObs
+}
+
+// ---- persistent argument buffers ----
+// Coordinates handed to the library are written into a few long-lived slices that are
+// overwritten in place for the next call: the values are what matters, so a result may not
+// depend on the identity or history of the caller's buffers (memoisation keyed on a slice that
+// the caller has since reused, scratch state left over from the previous call).
+var argSlots [12][]float64
+
+func slot(k int, vals ...float64) geom.Coord {
+	if cap(argSlots[k]) < len(vals) {
+		argSlots[k] = make([]float64, len(vals), 2*len(vals)+8)
+	}
+	argSlots[k] = argSlots[k][:len(vals)]
+	copy(argSlots[k], vals)
+	return geom.Coord(argSlots[k])
 }
 
 // pending records the input about to be executed, so that if the implementation kills the
@@ -189,7 +206,62 @@ func (e *Emitter) pending(op, input string) {
 	e.pendingLen = len(data)
 }
 
+// retained results: values returned by earlier calls are rendered again before every later line;
+// a result that no longer renders the same was changed by a later call (a recycled buffer, a
+// shared backing array) and is reported as a second observation of the earlier op, which then
+// disagrees with the model and fails the oracle.
+type retainedObs struct {
+	op, input, want string
+	render          func() string
+}
+
+func (e *Emitter) checkRetained() {
+	if len(e.retained) == 0 {
+		return
+	}
+	keep := e.retained[:0]
+	var changed []retainedObs
+	for _, ro := range e.retained {
+		now := guard(ro.render)
+		if now != ro.want {
+			ro.want = now
+			changed = append(changed, ro)
+			continue
+		}
+		keep = append(keep, ro)
+	}
+	e.retained = keep
+	for _, ro := range changed {
+		e.hist["retained-result-changed"]++
+		e.rawEmit(ro.op, ro.input, ro.want)
+	}
+}
+
+// emitR emits the observation now and keeps the rendering closure (over the returned values) so
+// that the same observation is re-checked after later calls.
+func (e *Emitter) emitR(op, input string, render func() string) {
+	out := guard(render)
+	e.emit(op, input, out)
+	e.retained = append(e.retained, retainedObs{op, input, out, render})
+	if len(e.retained) > 6 {
+		e.retained = e.retained[len(e.retained)-6:]
+	}
+}
+
+// watch keeps a rendering closure for an observation that has just been emitted.
+func (e *Emitter) watch(op, input string, render func() string) {
+	e.retained = append(e.retained, retainedObs{op, input, guard(render), render})
+	if len(e.retained) > 6 {
+		e.retained = e.retained[len(e.retained)-6:]
+	}
+}
+
 func (e *Emitter) emit(op, input, goOut string) {
+	e.checkRetained()
+	e.rawEmit(op, input, goOut)
+}
+
+func (e *Emitter) rawEmit(op, input, goOut string) {
 	e.sb.WriteString(op)
 	e.sb.WriteByte('\t')
 	e.sb.WriteString(input)
